@@ -10,6 +10,7 @@ import (
 	"github.com/zishang520/engine.io-go-parser/packet"
 	"github.com/zishang520/engine.io/v2/log"
 	"github.com/zishang520/engine.io/v2/types"
+	"github.com/zishang520/engine.io/v2/utils"
 	"github.com/zishang520/engine.io/v2/verifhook"
 )
 
@@ -20,6 +21,13 @@ type websocket struct {
 
 	socket *types.WebSocketConn
 	mu     sync.Mutex
+
+	// batches handed to the writer goroutine that have not been written yet, and
+	// whether the connection has to be closed once they are
+	sendMu        sync.Mutex
+	inflight      int
+	closeWhenIdle bool
+	closeTimer    *utils.Timer
 }
 
 // WebSocket transport
@@ -126,9 +134,13 @@ func (w *websocket) onMessage(data types.BufferInterface) {
 // Writes a packet payload.
 func (w *websocket) Send(packets []*packet.Packet) {
 	w.SetWritable(false)
+	w.sendMu.Lock()
+	w.inflight++
+	w.sendMu.Unlock()
 	go w.send(packets)
 }
 func (w *websocket) send(packets []*packet.Packet) {
+	defer w.sent()
 	if verifhook.Enabled {
 		verifhook.Point("ws.send.start", w, packets)
 	}
@@ -234,8 +246,33 @@ func (w *websocket) write(data types.BufferInterface, compress bool) {
 // Closes the transport.
 func (w *websocket) DoClose(fn types.Callable) {
 	ws_log.Debug(`closing`)
-	defer w.socket.Close()
 	if fn != nil {
 		fn()
+	}
+	w.sendMu.Lock()
+	// packets accepted before the close may still be with the writer goroutine: let
+	// them reach the wire, the last writer closes the connection
+	wait := w.inflight > 0 && !w.Discarded()
+	if wait {
+		w.closeWhenIdle = true
+		// a peer that stopped reading must not keep the connection for ever
+		w.closeTimer = utils.SetTimeout(func() { w.socket.Close() }, closeTimeout)
+	}
+	w.sendMu.Unlock()
+	if !wait {
+		w.socket.Close()
+	}
+}
+
+// sent accounts for a batch that has left the writer goroutine.
+func (w *websocket) sent() {
+	w.sendMu.Lock()
+	w.inflight--
+	closeNow := w.closeWhenIdle && w.inflight == 0
+	timer := w.closeTimer
+	w.sendMu.Unlock()
+	if closeNow {
+		utils.ClearTimeout(timer)
+		w.socket.Close()
 	}
 }
